@@ -326,6 +326,37 @@ pub fn decls(seed: u64, thorough: bool) -> Vec<Decl> {
         }
     }
 
+    // closures vs paths for `with` / `predicate`, regex literal vs static path: the same rule in every
+    // syntactic form must be enforced identically (the model calls the library function directly)
+    let all_forms = [FnForm::Path, FnForm::Closure, FnForm::ClosureTyped, FnForm::ClosureMut, FnForm::ClosureMove, FnForm::ClosureBlock];
+    for (inner, san, pred) in [
+        (Inner::Int(IntTy::I32), "s_clamp", "p_even"),
+        (Inner::Int(IntTy::U8), "s_wadd1", "p_not7"),
+        (Inner::F64, "s_neg", "p_not50"),
+        (Inner::Str, "s_trunc5", "p_has_at"),
+        (Inner::VecI32, "s_sort", "p_short"),
+        (Inner::Point, "s_swap", "p_xpos"),
+    ] {
+        for (fi, form) in all_forms.iter().enumerate() {
+            let mut d = Decl::new(inner);
+            d.sans = vec![SanSpec::With(FnRef::new(san, *form))];
+            d.vals = Vals::Std(vec![ValSpec::Predicate(FnRef::new(pred, all_forms[(fi + 2) % all_forms.len()]))]);
+            d.derives = light.to_vec();
+            d.tags = vec![format!("c02:form:{form:?}")];
+            out.push(d);
+        }
+    }
+    for form in [RegexForm::Literal, RegexForm::LazyLock, RegexForm::LazyStatic, RegexForm::OnceCell] {
+        for (pi, pattern) in ["^[a-z]{2,4}$", "^\\s*@", "ß|İ"].iter().enumerate() {
+            let mut d = Decl::new(Inner::Str);
+            d.sans = if pi == 1 { vec![] } else { vec![SanSpec::Trim] };
+            d.vals = Vals::Std(vec![ValSpec::Regex { pattern: pattern.to_string(), form: form.clone() }]);
+            d.derives = light.to_vec();
+            d.tags = vec![format!("c02:form:regex-{form:?}")];
+            out.push(d);
+        }
+    }
+
     // standard validators mixed with a custom `with`/`error` pair, in every order: the union of the
     // written rules must be enforced (or the declaration rejected)
     for (inner, m, std_text, std_val, cust) in [
